@@ -33,7 +33,7 @@ Proof.
   intros [HE [HEL [_ [_ [_ [HC [HCC HK]]]]]]] r e st v st' c ln Hv Hk Hchk Hev.
   pose proof Hv as [Hen Hst].
   destruct e as [z | t | a b | k args | es | kvs | t | e1 | g args | t opt m args | t opt b args | x args
-                 | view ps body | e1 | e1 T | e1 | e1]; simpl in Hev, Hchk.
+                 | view ps body | e1 | e1 T | e1 | e1 | ]; simpl in Hev, Hchk.
   - (* EInt *) inversion Hev; subst. fin_refl Hk.
   - (* ERead *)
     destruct (read_target st r t) as [a|] eqn:Hr; [|discriminate]. inversion Hev; subst.
@@ -141,6 +141,7 @@ Proof.
     apply app_nil_inv in Hchk. destruct Hchk as [_ Ho]. rewrite Hst in Ho. exfalso. eapply observe_nil; eauto.
   - (* EDestroy *)
     apply app_nil_inv in Hchk. destruct Hchk as [_ Ho]. exfalso. eapply observe_nil; eauto.
+  - (* ENilV *) inversion Hev; subst. fin_refl Hk.
 Qed.
 
 Lemma EL_step f : IH P n0 f -> EL_ P n0 (S f).
